@@ -118,6 +118,48 @@ def played_paths(ctx, nprog):
     return out
 
 
+def visualized_paths(ctx):
+    """what the library's PathVisualizer hands to render_path when a program plays kernels of DIFFERENT grid shapes one after the other
+    (and the Path values the program holds afterwards): played paths are well formed wherever they are observed"""
+    from vcommon import stubs
+    stubs.install_matplotlib_stubs()
+    from bloqade.shuttle.visualizer import PathVisualizer
+    from bloqade.shuttle.visualizer.renderers.interface import RendererInterface
+    S = tweezer_prog.harness_spec()
+    ksrc = ("@tweezer\ndef ka(x: float):\n    g = grid.from_positions([x, x + 2.0], [0.0, 1.0])\n    action.set_loc(g)\n    action.turn_on(action.ALL, [0])\n"
+            "    action.move(grid.shift(g, 1.0, 0.5))\n    action.turn_off(action.ALL, [0])\n"
+            "@tweezer\ndef kb(x: float):\n    g = grid.from_positions([x + 9.0], [0.0, 1.0, 4.0])\n    action.set_loc(g)\n    action.turn_on([0], action.ALL)\n"
+            "    action.move(grid.shift(g, 1.0, 0.5))\n    action.move(grid.shift(g, 1.0, 2.5))\n"
+            "@tweezer\ndef kc(x: float):\n    action.set_loc(grid.from_positions([x], [5.0]))\n")
+    ns = kernels.define(ksrc)
+    out = []
+
+    class Rec(RendererInterface):
+        def __init__(self): self.paths = []
+        def render_traps(self, traps, zone_id): pass
+        def render_path(self, pth): self.paths.append(pth)
+        def set_title(self, title): pass
+        def show(self): pass
+        def clear_paths(self): pass
+    for dec in ("", "(arch_spec=S)"):
+        src = (f"@move{dec}\ndef mv(x: float):\n    fa = schedule.device_fn(ka, [0, 1], [0, 1])\n    fb = schedule.device_fn(kb, [0], [0, 1, 2])\n    fc = schedule.device_fn(kc, [0], [0])\n"
+               "    fa(x)\n    fb(x)\n    schedule.reverse(fa)(x)\n    fc(x)\n    schedule.reverse(fb)(1.0)\n    with schedule.parallel():\n        fa(2.0)\n        fb(x)\n    fa(x)\n")
+        rep = {"visualized_by": src, "kernels": ksrc}
+        try:
+            m = kernels.define(src, S=S, **{k: ns[k] for k in ("ka", "kb", "kc")})["mv"]
+            rec = Rec()
+            PathVisualizer(m.dialects, arch_spec=S, renderer=rec).run(m, (0.5,), {})
+        except Exception as e:
+            ctx.fail({"kind": "traced-kernel-not-played", "route": "PathVisualizer"}, rep, f"PathVisualizer could not replay a program that plays kernels of different shapes: {type(e).__name__}: {str(e)[:100]}")
+            continue
+        ctx.hist("played", f"PathVisualizer{dec}: {len(rec.paths)} paths drawn")
+        if len(rec.paths) != 8:
+            ctx.fail({"kind": "traced-kernel-not-played", "route": "PathVisualizer", "drawn": len(rec.paths)}, rep, f"PathVisualizer drew {len(rec.paths)} paths for 8 played paths")
+        for j, pv in enumerate(rec.paths):
+            out.append((f"played/PathVisualizer{dec}", dict(rep, which=f"path {j} handed to render_path"), list(pv.path)))
+    return out
+
+
 def shape_text(ap):
     out = []
     for a in ap:
@@ -172,7 +214,7 @@ def run(ctx):
     corpus += [("library:" + n, {"kernel": n, "args": a}, r) for n, a, r in library_paths(ctx)]
     corpus += [("reused-tracer", rep, r) for rep, r in reused_tracer_paths(ctx, ctx.pick(120, 1200))]
     rendered_paths(ctx, corpus[:ctx.pick(150, 1500)])
-    played = played_paths(ctx, ctx.pick(60, 600))
+    played = played_paths(ctx, ctx.pick(60, 600)) + visualized_paths(ctx)
     ctx.count("played paths (Path.path of path.Play events, three routes, forward and reversed)", len(played))
     cases = []
     for kind, rep, p in corpus + played:
@@ -236,6 +278,14 @@ def replay(data):
         q = last[1] if inp.get("which") == "traced" else T.reverse_path(last[1])
         why = tc.wf_py(tc.abstract_path(q))
         return why is not None, why or "well formed"
+    if "visualized_by" in inp:
+        class C:
+            def __init__(s): s.fails = []
+            def fail(s, sig, rep, what): s.fails.append(what)
+            def hist(s, *a): pass
+        c = C()
+        bad = [f"{rep['which']}: {tc.wf_py(tc.abstract_path(p))}" for k, rep, p in visualized_paths(c) if rep["visualized_by"] == inp["visualized_by"] and tc.wf_py(tc.abstract_path(p))]
+        return bool(bad or c.fails), (bad + c.fails + ["well formed"])[0][:200]
     if "played_by" in inp:
         from vcommon import events
         S = tweezer_prog.harness_spec()
